@@ -359,6 +359,37 @@ Proof.
   rewrite <- app_assoc in Hr. apply app_inv_head in Hr. inversion Hr. congruence.
 Qed.
 
+(* the deduplicated list names exactly the per-entry names *)
+Lemma in_add_name names n x : In x (tr_add_name names n) <-> In x names \/ x = n.
+Proof.
+  unfold tr_add_name. destruct (existsb (list_eqb n) names) eqn:E.
+  - split; [auto|]. intros [Hx | ->]; [exact Hx|]. apply existsb_exists in E as (y & Hy & Ey).
+    apply list_eqb_eq in Ey. subst. exact Hy.
+  - rewrite in_app_iff. cbn. intuition.
+Qed.
+
+Lemma in_fold_add per : forall names x, In x (fold_left tr_add_name per names) <-> In x names \/ In x per.
+Proof.
+  induction per as [|n per IH]; intros names x; cbn [fold_left]; [cbn; tauto|].
+  rewrite IH, in_add_name. cbn. intuition.
+Qed.
+
+Lemma nodup_snoc {A} (l : list A) (x : A) : NoDup l -> ~ In x l -> NoDup (l ++ [x]).
+Proof.
+  induction l as [|a l IH]; intros Hn Hx; cbn [app]; [constructor; [intros Hf; destruct Hf | constructor]|].
+  inversion Hn; subst. constructor.
+  - intro Hin. apply in_app_or in Hin as [Hin|[->|Hf]]; [contradiction | apply Hx; left; reflexivity | destruct Hf].
+  - apply IH; [assumption | intro Hin; apply Hx; right; exact Hin].
+Qed.
+
+Lemma nodup_add_name names n : NoDup names -> NoDup (tr_add_name names n).
+Proof.
+  intro Hn. unfold tr_add_name. destruct (existsb (list_eqb n) names) eqn:E; [exact Hn|].
+  apply nodup_snoc; [exact Hn|]. intro Hin.
+  assert (existsb (list_eqb n) names = true); [|congruence].
+  apply existsb_exists. exists n. split; [exact Hin | apply list_eqb_refl].
+Qed.
+
 Section Tree.
 Variable hx : list byte -> Resume.digest.
 Variable ahdr : src -> Z -> list byte.
@@ -708,37 +739,6 @@ Proof.
   destruct (spec_inv items [] _ _ _ _ _ (inv_init Hd) Hwf Hh Hsafe Hs) as ((_ & _ & Hmono & Hcont & Hkey & Hfresh & _ & Hsubs) & Hl & Ha).
   cbn [app] in *. split; [exact Hl|]. split; [exact Ha|]. split; [|auto].
   intros e ln Hin m Hm. apply members_in in Hm as [->|Hm]; [rewrite tail_with_subs, node_with_subs; apply (Hcont e ln Hin) | apply (Hsubs e ln Hin m Hm)].
-Qed.
-
-(* the deduplicated list names exactly the per-entry names *)
-Lemma in_add_name names n x : In x (tr_add_name names n) <-> In x names \/ x = n.
-Proof.
-  unfold tr_add_name. destruct (existsb (list_eqb n) names) eqn:E.
-  - split; [auto|]. intros [Hx | ->]; [exact Hx|]. apply existsb_exists in E as (y & Hy & Ey).
-    apply list_eqb_eq in Ey. subst. exact Hy.
-  - rewrite in_app_iff. cbn. intuition.
-Qed.
-
-Lemma in_fold_add per : forall names x, In x (fold_left tr_add_name per names) <-> In x names \/ In x per.
-Proof.
-  induction per as [|n per IH]; intros names x; cbn [fold_left]; [cbn; tauto|].
-  rewrite IH, in_add_name. cbn. intuition.
-Qed.
-
-Lemma nodup_snoc {A} (l : list A) (x : A) : NoDup l -> ~ In x l -> NoDup (l ++ [x]).
-Proof.
-  induction l as [|a l IH]; intros Hn Hx; cbn [app]; [constructor; [intros Hf; destruct Hf | constructor]|].
-  inversion Hn; subst. constructor.
-  - intro Hin. apply in_app_or in Hin as [Hin|[->|Hf]]; [contradiction | apply Hx; left; reflexivity | destruct Hf].
-  - apply IH; [assumption | intro Hin; apply Hx; right; exact Hin].
-Qed.
-
-Lemma nodup_add_name names n : NoDup names -> NoDup (tr_add_name names n).
-Proof.
-  intro Hn. unfold tr_add_name. destruct (existsb (list_eqb n) names) eqn:E; [exact Hn|].
-  apply nodup_snoc; [exact Hn|]. intro Hin.
-  assert (existsb (list_eqb n) names = true); [|congruence].
-  apply existsb_exists. exists n. split; [exact Hin | apply list_eqb_refl].
 Qed.
 
 End Tree.
